@@ -223,6 +223,16 @@ def compare_function(R, ref, f, p, hide_error, setname, ret_check=True):
     if ok:
         bad = [(i, bt, ct) for i, ((bt, bn), (ct, cn)) in enumerate(zip(f["args"], cargs)) if not tcompat(bt, ct)]
         R.cmp(f["file"], "function-argtype", name, not bad, bs + ("; mismatching positions %s" % ["#%d %s vs %s" % (i + 1, bt, ct) for i, bt, ct in bad] if bad else ""), cs, where)
+        # same types in the same places do not make the same declaration: a parameter that carries the NAME of a C parameter must stand at that parameter's position
+        # (two doubles exchanged pass every type comparison); parameters named differently from every C parameter say nothing and are skipped
+        cpos = {}
+        for i, (ct, cn) in enumerate(cargs):
+            if cn:
+                cpos.setdefault(str(cn).lower(), []).append(i)
+        moved = [(i, bn, cpos[str(bn).lower()][0]) for i, (bt, bn) in enumerate(f["args"]) if bn and len(cpos.get(str(bn).lower(), [])) == 1 and cpos[str(bn).lower()][0] != i]
+        if any(bn for bt, bn in f["args"]) and cpos:
+            R.cmp(f["file"], "function-argorder", name, not moved, "parameter order %s%s" % ([bn for bt, bn in f["args"]], "; out of place: %s" % ["%s is #%d, C has it at #%d" % (bn, i + 1, j + 1) for i, bn, j in moved] if moved else ""),
+                  "parameter order %s" % [cn for ct, cn in cargs], where)
     if ret_check and f["ret"] is not None and not str(f["ret"]).startswith("obj:"):
         R.cmp(f["file"], "function-rettype", name, tcompat(f["ret"], cret), bs, cs, where)
 
@@ -283,6 +293,41 @@ def run(ctx, B, collect=False):
             resh.append(f["name"]); continue
         nw += 1
         compare_function(R, ref, f, p, False, "fortran module procedures")
+    # call sites: where a module procedure calls a BIND(C) interface, an actual argument that carries the name of one of the interface's dummy arguments
+    # must stand at that dummy's position (an interface in the right order can still be called with two arguments exchanged)
+    ncs = 0
+    for rel, FF in ((ff, F), (fg, G)):
+        iface = {f["name"].lower(): f for f in FF["bindc"] if f["args"] is not None}
+        ll = L.fortran_logical_lines(open(P(rel), errors="replace").read())[0]
+        for ln, l in ll:
+            if re.match(r"(?i)\s*(END\s*)?(FUNCTION|SUBROUTINE|INTERFACE)\b", l) or "BIND(" in l.upper().replace(" ", ""):
+                continue
+            for m in re.finditer(r"\b(\w+)\s*\(", l):
+                f = iface.get(m.group(1).lower())
+                if f is None:
+                    continue
+                depth, j = 0, m.end() - 1
+                for j in range(m.end() - 1, len(l)):
+                    depth += (l[j] == "(") - (l[j] == ")")
+                    if depth == 0:
+                        break
+                inner = l[m.end():j]
+                acts, cur, depth = [], "", 0
+                for ch in inner:
+                    if ch == "," and depth == 0:
+                        acts.append(cur.strip()); cur = ""
+                    else:
+                        depth += (ch == "(") - (ch == ")"); cur += ch
+                if cur.strip() or acts:
+                    acts.append(cur.strip())
+                dn = [str(n).lower() for t, n in f["args"]]
+                ncs += 1
+                ok = R.cmp(rel, "call-arity", f["cname"], len(acts) == len(dn), "%s called with %d arguments" % (f["name"], len(acts)), "%d dummy arguments" % len(dn), "%s:%d" % (rel, ln), "fortran call sites")
+                if ok:
+                    moved = [(i, a, dn.index(a.lower())) for i, a in enumerate(acts) if re.fullmatch(r"\w+", a) and dn.count(a.lower()) == 1 and dn.index(a.lower()) != i]
+                    R.cmp(rel, "call-argorder", f["cname"], not moved, "%s(%s)%s" % (f["name"], ", ".join(acts), "; out of place: %s" % ["%s is #%d, the interface has it at #%d" % (a, i + 1, k + 1) for i, a, k in moved] if moved else ""),
+                          "interface dummy arguments %s" % dn, "%s:%d" % (rel, ln))
+    notes["functions_compared"]["fortran call sites of BIND(C) interfaces"] = ncs
     notes["functions_compared"]["fortran BIND(C) interfaces"] = nf
     notes["functions_compared"]["fortran module procedures"] = nw
     notes["no_counterpart_functions"]["fortran"] = sorted(set(nocf))
@@ -330,6 +375,39 @@ def run(ctx, B, collect=False):
             resh.append(f["name"]); continue
         nw += 1
         compare_function(R, ref, f, p, True, "pascal interface functions")
+    # every import is written 'function X_C(...) ... external ... name 'X'' (or X under its own name): the identifier the wrappers call and the symbol the
+    # linker binds must be the same function; and every published scalar wrapper F must call the import of F with its own parameters in its own order
+    imports = {}
+    for f in PM["functions"] + PI["functions"] + PP["functions"]:
+        if f["style"] == "pascal-external":
+            imports[f["name"].lower()] = f
+            ident = f["name"][:-2] if f["name"].endswith("_C") else f["name"]
+            R.cmp(f["file"], "import-name", f["name"], ident == f["cname"], "Pascal identifier %s imports the symbol '%s'" % (f["name"], f["cname"]),
+                  "symbol %s" % ident, "%s:%d" % (f["file"], f["line"]), "pascal external declarations")
+    ptext = L.pascal_strip_comments(open(P(pp), errors="replace").read())[0]
+    plines = ptext.split("\n"); poff = [0]
+    for l_ in plines:
+        poff.append(poff[-1] + len(l_) + 1)
+    heads = sorted(f["line"] for f in PP["functions"])
+    nfw = 0
+    for f in PP["functions"]:
+        if f["style"] != "pascal-wrapper" or allproto.get(f["name"]) is None or not is_scalar_sig(ref, allproto[f["name"]]):
+            continue
+        nxt = [h for h in heads if h > f["line"]]
+        body = ptext[poff[f["line"] - 1]:poff[(nxt[0] - 1) if nxt else len(plines)]]
+        calls = [(c, a) for c, a in re.findall(r"\b(\w+)\s*\(([^()]*(?:\([^()]*\)[^()]*)*)\)", body) if c.lower() in imports and c.lower() != f["name"].lower()]
+        calls = [(c, a) for c, a in calls if imports[c.lower()]["cname"] not in ("xrl_error_free", "xrlFree")]
+        where = "%s:%d" % (pp, f["line"])
+        if not R.cmp(pp, "wrapper-forwarding", f["name"], len(calls) == 1, "wrapper body calls %d imported functions: %s" % (len(calls), [c for c, a in calls]), "exactly one call of the import of %s" % f["name"], where, "pascal wrapper bodies"):
+            continue
+        nfw += 1
+        callee, astr = calls[0]
+        R.cmp(pp, "wrapper-forwarding-target", f["name"], imports[callee.lower()]["cname"] == f["name"], "wrapper calls %s, which imports '%s'" % (callee, imports[callee.lower()]["cname"]), "C function %s" % f["name"], where)
+        got = [x.strip().lower() for x in astr.split(",")]
+        want = [nm.lower() for t, nm in f["args"]]
+        okargs = len(got) == len(want) + 1 and got[-1] == "@error" and all(g in (w, w + "_c") for g, w in zip(got, want))
+        R.cmp(pp, "wrapper-forwarding-order", f["name"], okargs, "wrapper(%s) calls %s(%s)" % (", ".join(want), callee, ", ".join(got)), "its own parameters in its own order, then @error", where)
+    notes["functions_compared"]["pascal wrapper bodies"] = nfw
     notes["functions_compared"]["pascal external declarations"] = nf
     notes["functions_compared"]["pascal interface functions"] = nw
     notes["no_counterpart_functions"]["pascal"] = sorted(set(nocf))
@@ -391,6 +469,20 @@ def run(ctx, B, collect=False):
         pubname = made.get(f["name"], f["name"])
         for cl in f["calls"]:
             R.cmp(cy, "function-undeclared", cl, cl in pxd_funcs, "def %s calls xrl.%s" % (f["name"], cl), "declared in %s: %s" % (cx, cl in pxd_funcs), "%s:%d" % (cy, f["line"]))
+        # the def wrapper of F forwards to xrl.F with its own array arguments in its own order (each indexed by its own loop variable)
+        if f.get("callargs") and f["args"] is not None:
+            where = "%s:%d" % (cy, f["line"])
+            if R.cmp(cy, "wrapper-forwarding", f["name"], len(f["callargs"]) == 1, "def body calls %s" % [c for c, a in f["callargs"]], "one call of xrl.%s" % f["cname"], where, "cython def bodies"):
+                g_, acts = f["callargs"][0]
+                R.cmp(cy, "wrapper-forwarding-target", f["name"], g_ == f["cname"], "def %s calls xrl.%s" % (f["name"], g_), "xrl.%s" % f["cname"], where)
+                names = [n for t, n in f["args"]]
+                bare = [re.sub(r"\[.*\]$", "", x) for x in acts]
+                idx = [re.sub(r"^\w+", "", x) for x in acts[:len(names)]]
+                acts = [x for x in acts if x]
+                pc_ = allproto.get(f["cname"])
+                tail_ = ["NULL"] if (pc_ is None or (ref.csig(pc_)[1] and ref.csig(pc_)[1][-1][0] == "err**")) else []
+                R.cmp(cy, "wrapper-forwarding-order", f["name"], bare[:len(names)] == names and acts[len(names):] == tail_ and len(set(x for x in idx if x)) == len([x for x in idx if x]),
+                      "def %s(%s) calls xrl.%s(%s)" % (f["name"], ", ".join(names), g_, ", ".join(acts)), "its own arguments in its own order, each with its own index, then NULL for the error pointer (if C has one)", where)
         p = allproto.get(pubname)
         if p is None or pubname.startswith("_"):
             if not (f["name"].startswith("_") or f["name"].startswith("XRL_")):
